@@ -68,6 +68,7 @@ class ReadBuf:
             v = pad * (4 - (len(v) % 4)) + v
         for i in range(0, len(v), 4):
             r = (r << 32) | struct.unpack(f, v[i:i + 4])[0]
+            f = '>I'  # Only the most significant word carries the sign.
         return r
 
     def read_mpint1(self) -> int:
